@@ -435,6 +435,152 @@ func runUnmarshal(c *vh.Ctx, cs Case) {
 	}
 	// hash: H(payload encoding), independent of the authorization data
 	hashOracle(c, cs, ver, p)
+	// the decoded transaction owns its data; so does the encoder's output
+	ownershipOracle(c, cs, b)
+}
+
+// observation of a decoded transaction through fresh (uncached) wrappers that share
+// all of its slices and pointers
+type obsT struct {
+	pan   bool
+	mar   []byte
+	pay   []byte
+	hash  crypto.Hash
+	canon string
+}
+
+func observe(ver *common.VersionedTransaction) (o obsT) {
+	o.pan, _ = vh.Catch(func() {
+		st := ver.SignedTransaction
+		o.mar = append([]byte(nil), common.NewEncoder().EncodeTransaction(&st)...)
+		v2 := &common.VersionedTransaction{SignedTransaction: ver.SignedTransaction}
+		o.pay = append([]byte(nil), v2.PayloadMarshal()...)
+		o.hash = v2.PayloadHash()
+		o.canon = canon(project(ver))
+	})
+	return
+}
+
+func (a obsT) same(b obsT) bool {
+	return a.pan == b.pan && bytes.Equal(a.mar, b.mar) && bytes.Equal(a.pay, b.pay) && a.hash == b.hash && a.canon == b.canon
+}
+
+// ownershipOracle: b was accepted.  Decode it from a scratch buffer, then reuse the
+// buffer (zeros, 0xFF, another valid transaction of the same length decoded in place):
+// the first transaction must still re-encode to exactly b, with the same payload
+// encoding, hash and fields.  Conversely, writing into the decoded transaction's byte
+// fields must not change the caller's buffer, and writing into Marshal's result must
+// not change a second Marshal.
+func ownershipOracle(c *vh.Ctx, cs Case, b []byte) {
+	scratch := append([]byte(nil), b...)
+	var ver *common.VersionedTransaction
+	var err error
+	pan, _ := vh.Catch(func() { ver, err = common.UnmarshalVersionedTransaction(scratch) })
+	if pan || err != nil {
+		c.Fail("decode-not-deterministic", "a byte string accepted once is refused when decoded again from a copy", cs)
+		return
+	}
+	first := observe(ver)
+	if first.pan || !bytes.Equal(first.mar, b) {
+		c.Fail("accepted-not-canonical", "accepted byte string re-encodes to different bytes", cs)
+		return
+	}
+	check := func(how string) bool {
+		if now := observe(ver); !now.same(first) {
+			what := "fields"
+			switch {
+			case now.pan:
+				what = "re-encoding panics"
+			case !bytes.Equal(now.mar, b):
+				what = "it no longer re-encodes to the accepted bytes"
+			case now.hash != first.hash:
+				what = "its payload hash changed"
+			}
+			c.Fail("decoded-aliases-input", "after the caller reused its buffer ("+how+") the decoded transaction changed: "+what, cs)
+			return false
+		}
+		return true
+	}
+	for i := range scratch {
+		scratch[i] = 0
+	}
+	if !check("zeros") {
+		return
+	}
+	for i := range scratch {
+		scratch[i] = 0xff
+	}
+	if !check("0xFF") {
+		return
+	}
+	// another valid transaction of the same length, decoded from the same buffer
+	if n := len(b) - 48; n >= 0 && n <= common.ExtraSizeStorageCapacity {
+		other := &TxJ{Version: common.TxVersionHashSignature, Asset: strings.Repeat("a5", 32), Extra: strings.Repeat("c3", n)}
+		copy(scratch, write(other, variant{}))
+		var ov *common.VersionedTransaction
+		p2, _ := vh.Catch(func() { ov, err = common.UnmarshalVersionedTransaction(scratch) })
+		if !check("another transaction received into the same buffer") {
+			return
+		}
+		if !p2 && err == nil && !bytes.Equal(b, scratch) && ov.PayloadHash() == first.hash {
+			c.Fail("decoded-aliases-input", "two different accepted byte strings decoded from one buffer have the same hash", cs)
+			return
+		}
+	}
+	// converse: the transaction's byte fields are not views of the caller's buffer
+	copy(scratch, b)
+	pan, _ = vh.Catch(func() { ver, err = common.UnmarshalVersionedTransaction(scratch) })
+	if pan || err != nil {
+		return
+	}
+	flip := func(x []byte) {
+		for i := range x {
+			x[i] ^= 0xff
+		}
+	}
+	flip(ver.Extra)
+	for _, in := range ver.Inputs {
+		flip(in.Genesis)
+		flip(in.Hash[:])
+	}
+	for _, o := range ver.Outputs {
+		flip(o.Script)
+		flip(o.Mask[:])
+		for _, k := range o.Keys {
+			flip(k[:])
+		}
+	}
+	for i := range ver.References {
+		flip(ver.References[i][:])
+	}
+	for _, sm := range ver.SignaturesMap {
+		for _, g := range sm {
+			flip(g[:])
+		}
+	}
+	if a := ver.AggregatedSignature; a != nil {
+		flip(a.Signature[:])
+		for i := range a.Signers {
+			a.Signers[i]++
+		}
+	}
+	if !bytes.Equal(scratch, b) {
+		c.Fail("input-aliased-by-decoded", "writing into the decoded transaction's fields changed the caller's buffer", cs)
+		return
+	}
+	// the encoder's output is owned by the caller
+	copy(scratch, b)
+	pan, _ = vh.Catch(func() {
+		ver, err = common.UnmarshalVersionedTransaction(scratch)
+		m1 := ver.Marshal()
+		flip(m1)
+		if m2 := ver.Marshal(); !bytes.Equal(m2, b) {
+			c.Fail("marshal-output-aliased", "writing into the bytes Marshal returned changed a second Marshal", cs)
+		}
+	})
+	if pan {
+		c.Fail("reencode-panic", "Marshal panicked on an accepted transaction", cs)
+	}
 }
 
 func hashOracle(c *vh.Ctx, cs Case, ver *common.VersionedTransaction, p *TxJ) {
@@ -1350,6 +1496,17 @@ func corpus(c *vh.Ctx) {
 	}
 	full.Maps = [][]EntJ{{{I: 2, S: rhex(r, 64)}, {I: 0, S: rhex(r, 64)}, {I: 65535, S: rhex(r, 64)}}, {}, {{I: 1, S: rhex(r, 64)}}}
 	family(c, full, "corpus", 12)
+	// ownership: several KB of extra, withdrawal data, deposit, mint, genesis, aggregated signers
+	{
+		own := cloneTx(full)
+		own.Extra = hx(r.Bytes(3000))
+		own.Maps, own.Agg = nil, &AggJ{Sig: rhex(r, 64), Signers: []int{0, 3, 9, 700}}
+		family(c, own, "corpus-ownership", 2)
+		own2 := cloneTx(own)
+		own2.Extra = hx(r.Bytes(700))
+		own2.Agg.Signers = []int{1, 2, 3, 4, 5}
+		family(c, own2, "corpus-ownership", 2)
+	}
 	// a mint amount of zero as the very last field before the output count, zero amounts
 	family(c, &TxJ{Version: 5, Asset: rhex(r, 32), Ins: []InJ{{Hash: zeros(32), Mint: &MintJ{Group: "", Batch: 0, Amount: "0"}}},
 		Outs: []OutJ{{Type: 0, Amount: "0", Mask: zeros(32)}}}, "corpus", 6)
@@ -1558,7 +1715,7 @@ func main() {
 		"entry order or an aggregated signature) -> its encoding, 2-4 single-byte mutations/truncations/extensions/deletions of it, a hand-written " +
 		"non-canonical encoding of it (unsorted or repeated map index, other mask form, padded mask or amount, wrong map count), a pair with the same " +
 		"payload and another authorization, two pairs with one payload field changed; values the encoder must refuse; arbitrary byte strings. " +
-		"Non-trivial = the decoder accepted, or the string carries the version header and is longer than the asset; for values = Marshal returned. " +
+		"Every accepted string is also decoded from a scratch buffer that is then overwritten (zeros, 0xFF, another valid transaction) to check that the transaction owns its data. Non-trivial = the decoder accepted, or the string carries the version header and is longer than the asset; for values = Marshal returned. " +
 		"Distinct by byte string / by value."
 	if c.Replay != "" {
 		var cs Case
